@@ -134,6 +134,8 @@ def gen_case(rnd, tier, index):
     origin = wrnd.choice(('nodata', 'nodata', 'xlsx', 'xlsx', 'yml', 'json', 'pkl'))
     if origin != 'xlsx' and wrnd.random() < 0.3:
         wbgen.add_table_gadget(wrnd, spec)
+    if wrnd.random() < 0.1:
+        wbgen.add_branch_gadget(wrnd, spec)       # only one branch of an IF is calculated first
     if wrnd.random() < 0.25:
         wbgen.add_lookup_gadget(wrnd, spec)       # lookups whose tables look alike to Python
     dag = wbgen.Dag(spec)
@@ -500,10 +502,13 @@ def run_case(case):
     v = state['violation']
     if v:
         oc = history.origin_class(cfg.get('origin', 'nodata'))
+        # (the access path of the read that showed it is in the record, not in the tag: where
+        # a value went wrong and which read meets it first are two things)
+        v['path'] = v['op'].get('path')
         if v['rule'] == 'exception':
-            v['tag'] = f'exception/{v.get("exc")}/{v["op"].get("path")}/{oc}'
+            v['tag'] = f'exception/{v.get("exc")}/{oc}'
         else:
-            v['tag'] = f'{v["rule"]}/{v["op"].get("path")}/{oc}'
+            v['tag'] = f'{v["rule"]}/{oc}'
     digest = hashlib.sha256(json.dumps(events, default=str).encode()).hexdigest()[:16]
     sig = hashlib.sha256(repr((cfg.get('group'), cfg.get('perm'),
                                [(o['path'], o.get('a')) for o in ops])).encode()).hexdigest()[:16]
